@@ -165,6 +165,10 @@ func checkC18(c c18Case, rec *Rec) *Violation {
 		lineNames[fourth] = []string{c.Names[len(c.Names)-1], c.Names[0]}
 		text += third + "\n" + fourth + "\n"
 	}
+	// another line of the same list with the same address and one shared name: two rules, both answered
+	fifth := wantIP.String() + " same-ip.example " + c.Names[0]
+	lineNames[fifth] = []string{"same-ip.example", c.Names[0]}
+	text += fifth + "\n"
 	st, err := filterlist.NewRuleStorage([]filterlist.RuleList{&filterlist.StringRuleList{ID: 3, RulesText: text}})
 	if err != nil {
 		return viol(id, "C18:harness", "storage: %v", err)
@@ -212,7 +216,8 @@ func checkC18(c c18Case, rec *Rec) *Violation {
 	return nil
 }
 
-var c18NamePool = []string{"example.org", "a.com", "sub.a-b.co.uk", "xn--p1ai.xn--p1ai", "x1.y2.zz", "localhost.localdomain", "example.or", "xample.org", "b.example.org", "Printer.LAN", "Ads.Example.COM"}
+var c18NamePool = []string{"example.org", "a.com", "sub.a-b.co.uk", "xn--p1ai.xn--p1ai", "x1.y2.zz", "localhost.localdomain", "example.or", "xample.org", "b.example.org", "Printer.LAN", "Ads.Example.COM",
+	"face.cc", "abc.de", "0.cc", "bad.ac", "b.ac.be"} // spelled with hexadecimal digits only
 var c18IPs = []string{"0.0.0.0", "127.0.0.1", "::", "::1", "::ffff:1.2.3.4", "fe80::1", "2001:db8::1", "10.1.2.3", "255.255.255.255", "0:0:0:0:0:0:0:1"}
 
 func c18WS(t *rapid.T, label string) string {
